@@ -4,8 +4,10 @@ Decided: the order and guards of StorageServer.slot_testv_and_readv_and_writev
 (collect + write-enabler check of every share -> test -> read -> guarded
 write), the absence of filesystem-write effects in the collect/test/read
 stages, the all-shares write-enabler loop, the timing-safe comparison, the
-closed set of callers of the mutable write path, and that both the per-share and
-the per-request test verdicts are conjunctions over all their comparisons.  DESIGN.md section 5, C24."""
+closed set of callers of the mutable write path, that both the per-share and
+the per-request test verdicts are conjunctions over all their comparisons, and that
+the early size refusal and the write stage each visit every share the request names
+(the refusal: every write of it).  DESIGN.md section 5, C24."""
 from sa.h import *
 
 EXPLANATION = (
@@ -24,20 +26,31 @@ EXPLANATION = (
     "test vector and b'' semantics (EmptyShare) exactly for missing shares; (7) the mutable write path (writev, "
     "_evaluate_write_vectors, _allocate_slot_share, create_mutable_sharefile, MutableShareFile.create and the "
     "private writers) is called only from that guarded chain; leases are renewed exactly on the dict of shares the "
-    "write stage reports as remaining, and the read stage returns share.readv(read_vector) for every collected share; "
+    "write stage reports as remaining, and the read stage returns share.readv(read_vector) for every collected share "
+    "(one store per iteration of the loop over shares.items(), no iteration avoids it, no early exit); "
     "(8) all-or-nothing across shares: every request-validation exception that a share's write step can raise "
-    "explicitly (transitively, storage package) must also be raised at a point no mutating step can precede - "
-    "on the pinned tree this FAILS for DataTooLargeError (finding: a later share's oversized write aborts the request "
-    "after earlier shares were written); (9) the verdict of ONE share is the conjunction of all comparisons of its test "
+    "explicitly (transitively, storage package) must also be raised at a point no mutating step can precede "
+    "(DataTooLargeError failed this until fix b415ab1: a later share's oversized write aborted the request after "
+    "earlier shares were written), and that early refusal - a raise statement of _evaluate_write_vectors, of its caller "
+    "before the write stage, or of a directly called helper given the vectors - sits in a loop over every share named by "
+    "test_and_write_vectors and, inside it, over the whole of the element of that share's tuple which the write stage hands "
+    "to writev; neither loop can be left early, an iteration of the share loop reaches the data loop unless the data vector "
+    "is empty, an iteration of the data loop evaluates a condition that leads to the raise, and those conditions depend on "
+    "every name the data loop binds (offset and data); (10) the write stage applies writev / unlink inside a loop over every "
+    "share named by test_and_write_vectors (not a slice, not the collected shares) that has no break / return; (9) the verdict of ONE share is the conjunction of all comparisons of its test "
     "vector: MutableShareFile.check_testv and EmptyShare.check_testv (and any storage-package helper they delegate to, "
     "summarised recursively) are explored with a concrete boolean store in which every testv_compare forks into "
     "succeeded / failed - whether it stands in a condition, an assignment, and/or, all()/any() or a return - and on "
     "every normal path the result is falsy once any comparison failed, True only if none failed and the loop over the "
     "whole vector ran to completion, and no iteration passes an entry over; (6) uses the same evaluation for the "
-    "per-request verdict over the shares.  Undecided (explicit non-claim): I/O errors (OSError) in the middle of the "
+    "per-request verdict over the shares.  Undecided (explicit non-claim): whether the early size condition is "
+    "as strong as the one of the write step (orientation and MAX_SIZE operand are decided under C23.8, the > / >= boundary by "
+    "nobody); that every iteration of the write stage applies its share's own vector, unlinks only under new_length == 0 and "
+    "guards os.rmdir by emptiness (C23.5), and that writev applies every entry of the data vector (C23.4); which leases are "
+    "renewed under renew_leases (C25); I/O errors (OSError) in the middle of the "
     "write stage; exceptional paths inside check_testv (a raise aborts the request before any write); that the "
     "comparison operands are the share's data at (offset, length) and the entry's specimen (decided under C23.7); NoSpace from the lease step after all writes; interleaving with other requests; values compared.")
-TECHNIQUE = "static analysis: CFG must-precede/guard rules, filesystem-effect summaries over the call graph, who-may-call"
+TECHNIQUE = "static analysis: CFG must-precede/guard rules, filesystem-effect summaries over the call graph, who-may-call, loop-coverage of the request's vectors"
 
 MSF = "storage.mutable:MutableShareFile"
 SRV = "storage.server:StorageServer"
@@ -286,6 +299,12 @@ def _neg(v):
 _WRAPPERS = ("list", "tuple", "iter", "enumerate", "reversed", "sorted")
 
 
+def _whole_slice(sl):
+    zero = sl.lower is None or (isinstance(sl.lower, ast.Constant) and sl.lower.value in (0, None))
+    return zero and (sl.upper is None or (isinstance(sl.upper, ast.Constant) and sl.upper.value is None)) \
+        and (sl.step is None or (isinstance(sl.step, ast.Constant) and sl.step.value in (None, 1)))
+
+
 def vector_kind(fn, tv, e, depth=3):
     """Does expression `e` of function fn denote every entry of the collection parameter `tv` ('full'), a strict
     part of it ('part': a slice), or something else (None)?  Order-changing / copying wrappers and dict key/item
@@ -306,10 +325,7 @@ def vector_kind(fn, tv, e, depth=3):
         k = vector_kind(fn, tv, e.value, depth)
         if k is None:
             return None
-        zero = sl.lower is None or (isinstance(sl.lower, ast.Constant) and sl.lower.value in (0, None))
-        whole = zero and (sl.upper is None or (isinstance(sl.upper, ast.Constant) and sl.upper.value is None)) \
-            and (sl.step is None or (isinstance(sl.step, ast.Constant) and sl.step.value in (None, 1)))
-        return k if whole else "part"
+        return k if _whole_slice(sl) else "part"
     if isinstance(e, ast.Name):
         defs = def_exprs(fn).get(e.id, [])
         if e.id == tv and not defs:
@@ -629,6 +645,175 @@ class ConjunctionVerdict:
                 short(of), src(of, node) if node is not None else "None", self.what))
 
 
+# ------------------------------------------------- loops over the request
+def raise_name(n):
+    e = n.ast.exc
+    if isinstance(e, ast.Call):
+        e = e.func
+    return e.id if isinstance(e, ast.Name) else (e.attr if isinstance(e, ast.Attribute) else None)
+
+
+def loops_around(fn, target):
+    """The ``for`` statements of fn whose body holds the AST node `target`, outermost first."""
+    out = []
+    for L in func_own_nodes(fn):
+        if isinstance(L, ast.For) and any(x is target for b in L.body for x in ast.walk(b)):
+            out.append((sum(1 for _ in ast.walk(L)), L))
+    return [L for (_k, L) in sorted(out, key=lambda x: -x[0])]
+
+
+def head_of(fn, cfg, L):
+    hs = [n for n in cfg.nodes if n.kind == "iter" and n.ast is L]
+    if not hs:
+        raise AnalysisError("%s: loop at line %s has no node in the control-flow graph" % (short(fn), L.lineno))
+    return hs[0]
+
+
+def peel_vector(e):
+    """Strip order-changing / copying wrappers and slices: (inner expression, every entry kept?)."""
+    whole = True
+    while True:
+        if isinstance(e, ast.Call) and isinstance(e.func, ast.Name) and e.func.id in _WRAPPERS and len(e.args) == 1 \
+                and not isinstance(e.args[0], ast.Starred) and not e.keywords:
+            e = e.args[0]
+        elif isinstance(e, ast.Call) and isinstance(e.func, ast.Attribute) and e.func.attr == "copy" and not e.args and not e.keywords:
+            e = e.func.value
+        elif isinstance(e, ast.Subscript) and isinstance(e.slice, ast.Slice):
+            whole = whole and _whole_slice(e.slice)
+            e = e.value
+        else:
+            return e, whole
+
+
+def loop_coverage(fn, tw, L):
+    """Which entries of the collection parameter `tw` does loop L visit: 'full', 'part', 'unrelated' (the iterable
+    does not derive from tw at all) or 'unknown'."""
+    k = vector_kind(fn, tw, L.iter)
+    if k:
+        return k
+    base = peel_vector(L.iter)[0]
+    if isinstance(base, ast.Call) and isinstance(base.func, ast.Attribute) and base.func.attr in ("items", "keys", "values") \
+            and not base.args and not base.keywords:
+        base = peel_vector(base.func.value)[0]
+    if isinstance(base, ast.Name) and base.id != tw and base.id in fn.params and not any(
+            isinstance(x, ast.Name) and x.id == base.id and isinstance(x.ctx, (ast.Store, ast.Del)) for x in func_own_nodes(fn)):
+        return "unrelated"          # another parameter, never re-bound: not the request's collection of vectors
+    return "unknown" if tw in depends_on(fn, L.iter) else "unrelated"
+
+
+def bound_names(t):
+    return {x.id for x in ast.walk(t) if isinstance(x, ast.Name)}
+
+
+def share_component(fn, fnm, n, e, tw, loops):
+    """Does expression `e` (evaluated at CFG node n) denote element i of the request's vector tuple ``tw[key]`` of the
+    share that one of the enclosing `loops` is visiting?  -> (that loop, i, every entry kept?) or None.  The loop
+    may bind the key (``for k in tw``), key and tuple (``for k, v in tw.items()``) or the unpacked tuple."""
+    e0, whole = peel_vector(e)
+    s = fnm.norm(n, e0)
+    for L in reversed(loops):
+        it = peel_vector(L.iter)[0]
+        items = isinstance(it, ast.Call) and isinstance(it.func, ast.Attribute) and it.func.attr == "items" and not it.args
+        t = L.target
+        key = t if isinstance(t, ast.Name) and not items else (
+            t.elts[0] if items and isinstance(t, ast.Tuple) and len(t.elts) == 2 and isinstance(t.elts[0], ast.Name) else None)
+        if key is None:
+            continue
+        for i in range(8):
+            if s == norm_src("%s[%s][%d]" % (tw, key.id, i)):
+                return L, i, whole
+        if items:
+            v = t.elts[1]
+            if isinstance(v, ast.Name):
+                for i in range(8):
+                    if s == norm_src("%s[%d]" % (v.id, i)):
+                        return L, i, whole
+            elif isinstance(v, (ast.Tuple, ast.List)):
+                for i, x in enumerate(v.elts):
+                    if isinstance(x, ast.Name) and s == x.id:
+                        return L, i, whole
+    return None
+
+
+def iteration_avoiding(cfg, head, gate_node, gate_edge=None):
+    """Witness of ONE iteration of the loop (head --iter--> .. --> head) on which no gate node was left and no gate
+    edge was taken; None when every iteration passes a gate.  Exceptional edges are not followed."""
+    def tr(n, lab, nxt, st):
+        if st == "END" or lab == "exc":
+            return None
+        if n is head and lab != "iter":
+            return None
+        if n is not head and gate_node(n):
+            return None
+        if gate_edge is not None and gate_edge(n, lab):
+            return None
+        return "END" if nxt is head else "RUN"
+    vis, par = explore(cfg, "RUN", tr, start=head)
+    for (nid, st) in sorted(vis, key=lambda x: (x[0], str(x[1]))):
+        if st == "END":
+            return witness(cfg, par, (nid, st))
+    return None
+
+
+def validation_gaps(vf, vtw, rn, data_idx, what):
+    """The raise statement `rn` of function vf refuses a request before anything was written.  For that to protect
+    all-or-nothing it has to be evaluated for every write of every share the request names (collection parameter
+    vtw; the data vector is element data_idx of a share's tuple).  -> [(ast node, message, witness)] of the ways it
+    falls short; AnalysisError when the loops are not of a recognised form."""
+    vcfg = vf.cfg()
+    vnm = FlowNorm(vf)
+    loops = loops_around(vf, rn.ast)
+    found = None
+    for j in range(len(loops) - 1, -1, -1):
+        h = head_of(vf, vcfg, loops[j])
+        comp = share_component(vf, vnm, h, loops[j].iter, vtw, loops[:j])
+        if comp:
+            found = (loops[j], h) + comp
+            break
+    if found is None:
+        raise AnalysisError("%s: the early check raising %s is not recognised as a loop over the write vectors of the "
+                            "request's shares" % (short(vf), what))
+    L, h, KL, i, whole = found
+    gaps = []
+    if i != data_idx:
+        gaps.append((L, "the early %s check walks element %d of a share's vectors, not its data vector (element %d)" % (what, i, data_idx), None))
+    if not whole:
+        gaps.append((L, "the early %s check looks at %s only, not at every write of the share" % (what, src(vf, L.iter)), None))
+    cov = loop_coverage(vf, vtw, KL)
+    if cov == "unknown":
+        raise AnalysisError("%s: cannot decide which shares '%s' visits" % (short(vf), src(vf, KL.iter)))
+    if cov != "full":
+        gaps.append((KL, "the early %s check visits %s, not every share the request names" % (what, src(vf, KL.iter)), None))
+    kh = head_of(vf, vcfg, KL)
+    for hh in (kh, h):
+        b = loop_early_exit(vcfg, hh)
+        if b is not None:
+            gaps.append((b.ast, "the early %s check can stop before every write of every share was examined" % what, None))
+    vec = vnm.norm(h, peel_vector(L.iter)[0])
+
+    def empty_vector(n, lab):
+        f = vnm.edge_fact(n, lab)
+        return f is not None and (f[:2] == ("false", vec) or (f[0] == "==" and {f[1], f[2]} == {"len(%s)" % vec, "0"}))
+    w = iteration_avoiding(vcfg, kh, lambda m: m is h, gate_edge=empty_vector)
+    if w is not None:
+        gaps.append((KL, "the early %s check can pass a share over without examining its writes (path: %s)" % (what, w.brief()), w))
+    tests = [t for t in vcfg.nodes if t.kind == "test" and t.ast is not None and any(x is t.ast for b in L.body for x in ast.walk(b))
+             and rn.id in fwd(vcfg, [t.id], stop=h.id)]
+    if tests:
+        tids = {t.id for t in tests}
+        w = iteration_avoiding(vcfg, h, lambda m: m.id in tids)
+        if w is not None:
+            gaps.append((L, "the early %s check can pass a write over without testing it (path: %s)" % (what, w.brief()), w))
+        deps = set()
+        for t in tests:
+            deps |= depends_on(vf, t.ast)
+        missing = sorted(bound_names(L.target) - deps)
+        if missing:
+            gaps.append((tests[-1].ast, "the early %s check does not depend on '%s' of each write: a write it lets through can still be "
+                         "refused while it is applied" % (what, "', '".join(missing)), None))
+    return gaps
+
+
 # -------------------------------------------------------------------- rules
 def run(ctx: Context):
     idx = ctx.idx
@@ -785,9 +970,12 @@ def run(ctx: Context):
                 k, v = [attr_path(e) for e in heads2[0].ast.target.elts]
                 st = [n for n in rcfg.nodes if (dname + "[]") in node_stores(n) and isinstance(n.ast, ast.Assign)
                       and norm_plain(n.ast.targets[0]) == "%s[%s]" % (dname, k) and norm_plain(n.ast.value) == "%s.readv(%s)" % (v, rp[0])]
-                okr = len(st) == 1 and not find_path_from_to_avoiding(
-                    rcfg, lambda m: m is heads2[0], gate_node=lambda m: m is st[0], ends=lambda m: m is heads2[0],
-                    start_label=lambda lab: lab == "iter") and loop_early_exit(rcfg, heads2[0]) is None
+                okr = len(st) == 1 and loop_early_exit(rcfg, heads2[0]) is None
+                if okr:
+                    w = iteration_avoiding(rcfg, heads2[0], lambda m: m is st[0])
+                    if w is not None:
+                        r.violation(rvf, rvf.loc(heads2[0].ast), "_evaluate_read_vectors can pass a collected share over without "
+                                    "reading it: the result lacks the pre-write data of that share (path: %s)" % w.brief(), w)
         r.require(okr, rvf, rvf.loc(), "_evaluate_read_vectors does not return {sharenum: share.readv(read_vector)} for every collected share")
 
     # -- 4. the collect loop ---------------------------------------------------------
@@ -1060,7 +1248,8 @@ def run(ctx: Context):
 
     # -- 8. all-or-nothing across the shares of one request ----------------------------
     with ctx.rule("C24.8", "R10", "_evaluate_write_vectors: a request-validation error that a share's write step can raise "
-                  "is also raised before the first share is modified (validate everything, then write)", expected=2) as r:
+                  "is also raised before the first share is modified, for every write of every named share (validate "
+                  "everything, then write)", expected=3) as r:
         fn = idx.func(SRV + "._evaluate_write_vectors")
         c8 = fn.cfg()
         rz = Raises(fx)
@@ -1087,19 +1276,90 @@ def run(ctx: Context):
         after_slot = set()
         for (wn_, c_, e_) in writers:
             after_slot |= fwd(cfg, [d for (d, l) in cfg.succ[wn_.id] if l != "exc"]) | {wn_.id}
-        early_in_caller = set()
+        early_in_caller = {}
         for n in cfg.nodes:
             if n.kind in ("entry", "exit", "raise") or n.id in after_slot:
                 continue
-            early_in_caller |= set(rz.node_raises(slot, cfg, n, frozenset([slot.qual])))
+            for name, where in rz.node_raises(slot, cfg, n, frozenset([slot.qual])).items():
+                early_in_caller.setdefault(name, []).append((slot, p_tw, n, where))
+        tw8 = first_positional_params(fn)[2]
+        f8 = FlowNorm(fn)
+
+        def data_index():
+            """Which element of a share's (testv, datav, new_length) tuple the apply loop hands to writev."""
+            out = set()
+            for n in c8.nodes:
+                for c in calls_at(n, "writev"):
+                    a0 = arg(c, 0, "datav")
+                    comp = share_component(fn, f8, n, a0, tw8, loops_around(fn, c)) if a0 is not None else None
+                    if comp is None:
+                        raise AnalysisError("%s: the data vector given to %s is not recognised as an element of "
+                                            "%s[share]" % (short(fn), src(fn, c), tw8))
+                    out.add(comp[1])
+            if len(out) != 1:
+                raise AnalysisError("%s: writev calls take different elements of a share's vectors: %s" % (short(fn), sorted(out)))
+            return out.pop()
+
+        def raise_sites(f_, tw_, n, where, name):
+            """The raise statements behind an early raiser node: the node itself, or those of a directly called
+            storage function that receives the whole collection of vectors."""
+            if is_raise(n):
+                return [(f_, tw_, n)]
+            out = []
+            for c in node_calls(n, into_lambda=True):
+                for g in fx.callees(f_, c):
+                    if g.qual != where:
+                        continue
+                    ps = first_positional_params(g)
+                    gtw = None
+                    for i, a in enumerate(c.args):
+                        if not isinstance(a, ast.Starred) and i < len(ps) and vector_kind(f_, tw_, a) == "full":
+                            gtw = ps[i]
+                    for kw in c.keywords:
+                        if kw.arg in ps and vector_kind(f_, tw_, kw.value) == "full":
+                            gtw = kw.arg
+                    if gtw is None:
+                        continue
+                    gcfg = g.cfg()
+                    reach = gcfg.reachable_nodes()
+                    out.extend((g, gtw, m) for m in gcfg.nodes if m.id in reach and is_raise(m) and raise_name(m) == name)
+            return out
         for name, lst in sorted(raisers.items()):
             late = [(n, where) for (n, where) in lst if n.id in after]
-            early = [(n, where) for (n, where) in lst if n.id not in after] or ([True] if name in early_in_caller else [])
+            early = [(fn, tw8, n, where) for (n, where) in lst if n.id not in after] + early_in_caller.get(name, [])
             if late and not early:
                 n, where = late[0]
                 r.violation(where, fn.loc(n.ast), "%s (raised in %s) can abort _evaluate_write_vectors at %s after an earlier "
                             "share of the same request was already modified, and nothing validates it before the first "
                             "write: the request is applied to some shares only" % (name, where.split(":", 1)[1], src(fn, n.ast)))
+            elif late:
+                # the early refusal must be evaluated for every write of every named share: the write step raises per write
+                if not any(calls_at(n, "writev") for (n, _w) in late):
+                    raise AnalysisError("%s: %s is raised by a write step other than writev: what the early check has to "
+                                        "cover is not recognised" % (short(fn), name))
+                r.site(early[0][0], early[0][2].ast, "early refusal of %s covers every write of every named share" % name)
+                cands = []
+                for (f_, tw_, n, where) in early:
+                    cands.extend(raise_sites(f_, tw_, n, where, name))
+                if not cands:
+                    raise AnalysisError("%s: the early raise of %s is not a raise statement of this function or of a directly "
+                                        "called helper that is given %s" % (short(fn), name, tw8))
+                di = data_index()
+                verdicts, errors = [], []
+                for (vf, vtw, rn) in cands:
+                    try:
+                        verdicts.append((vf, validation_gaps(vf, vtw, rn, di, name)))
+                    except AnalysisError as e:
+                        errors.append(e)
+                r.count(sum(len(vf.cfg().nodes) for (vf, _v, _r) in cands))
+                if any(not gaps for (_vf, gaps) in verdicts):
+                    continue
+                if not verdicts:
+                    raise errors[0]
+                vf, gaps = verdicts[0]
+                for (node, msg, w) in gaps:
+                    r.violation(vf, vf.loc(node), "%s: %s; a request it lets through can be refused by the write step after "
+                                "earlier shares were modified" % (short(vf), msg), w)
 
     # -- 9. the verdict of one share is the conjunction of all its comparisons -----------
     with ctx.rule("C24.9", "R1/R2", "check_testv of an existing share and of a missing share (and any helper they delegate "
@@ -1120,3 +1380,39 @@ def run(ctx: Context):
                 raise AnchorVanished("%s takes no test vector" % short(fn))
             r.site(fn, None, role)
             mon.judge(fn, ps[0])
+
+    # -- 10. the write stage visits every share the request names ------------------------
+    with ctx.rule("C24.10", "R1/R2", "_evaluate_write_vectors applies the vectors in a loop over every share named by "
+                  "test_and_write_vectors that cannot be left early: all writes or none", expected=2) as r:
+        fn = idx.func(SRV + "._evaluate_write_vectors")
+        tw10 = first_positional_params(fn)[2]
+        c10 = fn.cfg()
+        steps = [(n, c) for n in c10.nodes for c in node_calls(n)
+                 if call_tail(c) == "writev" or (call_tail(c) == "unlink" and not call_name(c).startswith("os."))]
+        if not any(call_tail(c) == "writev" for (_n, c) in steps):
+            raise AnchorVanished("no writev call in _evaluate_write_vectors")
+        seen_exit = set()
+        for (n, c) in steps:
+            r.site(fn, c, "applies one share's vectors")
+            loops = loops_around(fn, c)
+            covs = [(L, loop_coverage(fn, tw10, L)) for L in loops]
+            rel = [(L, k) for (L, k) in covs if k != "unrelated"]
+            if not rel:
+                r.violation(fn, fn.loc(c), "%s is %s, not in a loop over every share named by %s: shares the request names can be "
+                            "left unwritten although it reports success" % (
+                                src(fn, c.func), ("applied in a loop over " + src(fn, loops[-1].iter)) if loops else "applied outside any loop", tw10))
+                continue
+            L, k = rel[0]
+            if k == "unknown":
+                raise AnalysisError("%s: cannot decide which shares '%s' visits" % (short(fn), src(fn, L.iter)))
+            if k == "part" and id(L) not in seen_exit:
+                seen_exit.add(id(L))
+                r.violation(fn, fn.loc(L), "the write stage visits %s only, not every share named by %s: the request is applied "
+                            "to some shares only" % (src(fn, L.iter), tw10))
+            h = head_of(fn, c10, L)
+            bad = loop_early_exit(c10, h)
+            if bad is not None and bad.id not in seen_exit:
+                seen_exit.add(bad.id)
+                r.violation(fn, fn.loc(bad.ast), "the write stage can be left before every named share was written: the request "
+                            "is applied to some shares only")
+        r.count(len(c10.nodes) * len(steps))
